@@ -102,8 +102,11 @@ impl BlteBuilder {
     pub fn add_data(mut self, data: &[u8]) -> BlteResult<Self> {
         if data.len() <= self.chunk_size {
             // Single chunk
+            // Use current chunk count as block index: decoding uses the chunk's
+            // position in the file, not its position within this call
+            let chunk_index = self.chunks.len();
             let chunk = if let Some(_encryption) = &self.encryption {
-                self.create_encrypted_chunk(data.to_vec(), 0)?
+                self.create_encrypted_chunk(data.to_vec(), chunk_index)?
             } else {
                 ChunkData::new(data.to_vec(), self.default_mode)?
             };
@@ -111,7 +114,7 @@ impl BlteBuilder {
         } else {
             // Multiple chunks
             let mut offset = 0;
-            let mut chunk_index = 0;
+            let mut chunk_index = self.chunks.len();
             while offset < data.len() {
                 let end = (offset + self.chunk_size).min(data.len());
                 let chunk_data = data[offset..end].to_vec();
